@@ -90,6 +90,45 @@ def _ocr_unit():
         ensures=[('returns_a_twprge_text', lambda result: result[0] == 'T')], raises={})
 
 
+def verify_ns(val):
+    from pytrs.parser.config.config import verify_default_ns
+    return verify_default_ns(val)
+
+
+def verify_ew(val):
+    from pytrs.parser.config.config import verify_default_ew
+    return verify_default_ew(val)
+
+
+def _accepts(legal):
+    def post(val, result):
+        return len(val) >= 1 and val.lower()[0] in legal and result == val.lower()[0]
+    return post
+
+
+def _rejects(legal):
+    def cond(val):
+        return len(val) == 0 or val.lower()[0] not in legal
+    return cond
+
+
+def _verify_default_units():
+    """the two validators behind every default-direction channel: for every string (the empty one included) and for non-strings
+    they either return the lower-case first letter of a legal direction or raise their own documented exception, nothing else"""
+    from pytrs.parser.config import DefaultNSError, DefaultEWError
+    out = []
+    for nm, fn, exc, legal in (('default_ns', 'verify_ns', DefaultNSError, ('n', 's')), ('default_ew', 'verify_ew', DefaultEWError, ('e', 'w'))):
+        out.append(Unit(
+            name=f'C03/verify_{nm}[every string]', prop='C03', target=f'props.c03:{fn}', params={'val': Str(ascii_only=True)},
+            ensures=[('accepted_only_if_it_starts_with_a_legal_letter', _accepts(legal))],
+            raises={exc: _rejects(legal)}))
+        out.append(Unit(
+            name=f'C03/verify_{nm}[not a string]', prop='C03', target=f'props.c03:{fn}',
+            params={'val': Choice(Const(None), Const(5), Const(('n',)), Const(b'n'), Const(True))},
+            ensures=[('never_accepted', lambda result: False)], raises={exc: True}))
+    return out
+
+
 def new_desc(text, config):
     from pytrs import PLSSDesc
     return PLSSDesc(text, config=config)
@@ -137,7 +176,7 @@ def units():
             # two of those products stay in the quick tier, the rest runs in the thorough tier
             u.thorough_only = forced is not None and (arr, forced) not in (('nothing', 'TRS_desc'), ('sec only', 'TRS_desc'))
             us.append(u)
-    return us + _bad_text_units() + [_ocr_unit()] + _borrowed()
+    return us + _bad_text_units() + _verify_default_units() + [_ocr_unit()] + _borrowed()
 
 
 # ======================================================================================================================
@@ -179,6 +218,9 @@ def invalid_argument_table():
         rows.append((f'PLSSDesc(config={bad!r})', (lambda b=bad: pytrs.PLSSDesc('T154N-R97W Sec 14: NE/4', config=b)), ValueError))
         rows.append((f'Tract(config={bad!r})', (lambda b=bad: pytrs.Tract('NE/4', config=b, parse_qq=True)), ValueError))
     # (an empty string given as a keyword means "not given" to parse(); the statement does not ask for its rejection)
+    rows.append(("Config('default_ns.')", (lambda: pytrs.Config('default_ns.')), DefaultNSError))
+    rows.append(("Config('default_ew=')", (lambda: pytrs.Config('default_ew=')), DefaultEWError))
+    rows.append(("Tract(config='default_ns.')", (lambda: pytrs.Tract('NE/4', config='default_ns.')), DefaultNSError))
     for bad in ('x', 'default', 'e', 'w', 'north-ish'[5:]):
         rows.append((f'Config(default_ns.{bad})', (lambda b=bad: pytrs.Config('default_ns.' + b)), DefaultNSError))
         rows.append((f'parse(default_ns={bad!r})', (lambda b=bad: pytrs.PLSSDesc('T154-R97 Sec 14: NE/4', wait_to_parse=True).parse(default_ns=b)),
